@@ -32,8 +32,8 @@ type Unrelated struct {
 }
 
 const (
-	l4OutSQL   = "SELECT &Row.* FROM t"
-	l4NoOutSQL = "UPDATE t SET x = 1"
+	l4OutSQL   = "SELECT &Row.* FROM t WHERE id IN ($IDs[:])"
+	l4NoOutSQL = "UPDATE t SET x = 1 WHERE id IN ($IDs[:])"
 )
 
 // l4Case is one scripted operation (DESIGN §4 G-F / G-H, runtime layer).
@@ -65,8 +65,25 @@ type l4Case struct {
 	// Op == "pair": two goroutines run the same uncached Statement on one DB, each with
 	// its own context; A (Run) is held inside the driver's Prepare while B (PairOp, context
 	// Ctx = marker | nil | deadline-live) runs; AEnd = cancel | deadline | release.
-	PairOp string `json:"pairOp,omitempty"`
+	// OtherShape: the runs before the operation proper (cache warm-up, preliminary run) use
+	// another slice length, i.e. other SQL: the operation proper misses the cache
+	OtherShape bool   `json:"otherShape,omitempty"`
+	PairOp     string `json:"pairOp,omitempty"`
 	AEnd   string `json:"aEnd,omitempty"`
+}
+
+// IDs is the slice input of the layer's statements: its length decides the generated SQL,
+// so that a run with another length leaves a statement with other SQL in the cache.
+type IDs []int64
+
+var idsProper = IDs{1, 2}
+
+// idsBefore: the argument of the runs that precede the operation proper
+func (c *l4Case) idsBefore() IDs {
+	if c.OtherShape {
+		return IDs{1}
+	}
+	return idsProper
 }
 
 func genL4Pair(r *rng.R) *l4Case {
@@ -93,10 +110,10 @@ func runL4Pair(c *l4Case) (obs *l4Obs) {
 	defer sqldb.Close()
 	db := sqlair.NewDB(sqldb)
 	q := l4NoOutSQL
-	var samples []any
+	samples := []any{IDs{}}
 	if c.HasOutputs {
 		q = l4OutSQL
-		samples = []any{Row{}}
+		samples = []any{IDs{}, Row{}}
 	}
 	stmt, err := sqlair.Prepare(q, samples...)
 	if err != nil {
@@ -138,7 +155,7 @@ func runL4Pair(c *l4Case) (obs *l4Obs) {
 				retA = "panic: " + fmt.Sprint(p)
 			}
 		}()
-		retA = errText(db.Query(ctxA, stmt).Run())
+		retA = errText(db.Query(ctxA, stmt, idsProper).Run())
 	}()
 	select {
 	case <-gate.Entered:
@@ -155,7 +172,7 @@ func runL4Pair(c *l4Case) (obs *l4Obs) {
 				retB = "panic: " + fmt.Sprint(p)
 			}
 		}()
-		qr := db.Query(ctxB, stmt)
+		qr := db.Query(ctxB, stmt, idsProper)
 		switch c.PairOp {
 		case "get":
 			retB = errText(qr.Get(&row))
@@ -262,6 +279,9 @@ func genL4(r *rng.R) *l4Case {
 	if c.HasOutputs && r.Chance(1, 8) {
 		c.FewCols = true
 	}
+	if (strings.HasSuffix(c.Path, "cached") || c.PreCtx == "live") && r.Chance(1, 3) {
+		c.OtherShape = true
+	}
 	return c
 }
 
@@ -363,9 +383,9 @@ func runL4Case(c *l4Case) (obs *l4Obs) {
 	if c.HasOutputs {
 		q = l4OutSQL
 	}
-	var samples []any
+	samples := []any{IDs{}}
 	if c.HasOutputs {
-		samples = []any{Row{}}
+		samples = []any{IDs{}, Row{}}
 	}
 	stmt, err := sqlair.Prepare(q, samples...)
 	if err != nil {
@@ -376,7 +396,7 @@ func runL4Case(c *l4Case) (obs *l4Obs) {
 	onTx := strings.HasPrefix(c.Path, "tx")
 	if cached {
 		st.SetScript(fakedrv.Script{Columns: []string{"_sqlair_0", "_sqlair_1"}})
-		db.Query(context.Background(), stmt).Run()
+		db.Query(context.Background(), stmt, c.idsBefore()).Run()
 	}
 	// the script of the operation proper
 	sc := fakedrv.Script{Columns: []string{"_sqlair_0", "_sqlair_1"}, RowsAffected: 7}
@@ -484,9 +504,9 @@ func runL4Case(c *l4Case) (obs *l4Obs) {
 		}
 		var perr error
 		if onTx {
-			perr = tx.Query(pctx, stmt).Run()
+			perr = tx.Query(pctx, stmt, c.idsBefore()).Run()
 		} else {
-			perr = db.Query(pctx, stmt).Run()
+			perr = db.Query(pctx, stmt, c.idsBefore()).Run()
 		}
 		pcancel()
 		obs.PreReturn = errText(perr)
@@ -494,14 +514,15 @@ func runL4Case(c *l4Case) (obs *l4Obs) {
 	st.SetScript(sc)
 	// keep only what happens from here on (the TX begin is re-inserted when the log is read)
 	st.Reset()
+	stmtsBefore := st.StmtCount()
 	if onTx && c.TxEnd == "before-query" {
 		finish()
 	}
 	var qr *sqlair.Query
 	if onTx {
-		qr = tx.Query(ctx, stmt)
+		qr = tx.Query(ctx, stmt, idsProper)
 	} else {
-		qr = db.Query(ctx, stmt)
+		qr = db.Query(ctx, stmt, idsProper)
 	}
 	if c.Ctx == "cancelled-between" {
 		cancel()
@@ -644,6 +665,12 @@ func runL4Case(c *l4Case) (obs *l4Obs) {
 	}
 	for _, e := range st.Events() {
 		if k, ok := modelledEvents[e.Kind]; ok {
+			if c.OtherShape && k == "stmtClose" && e.Stmt <= stmtsBefore {
+				// the statement of the other shape, evicted from the cache by the operation
+				// proper, is closed by a finalizer whenever the collector runs: not an event
+				// of this operation (C10/C11's subject)
+				continue
+			}
 			obs.Events = append(obs.Events, k)
 			obs.EventConn = append(obs.EventConn, e.Conn)
 			if k == "prepare" || k == "exec" || k == "query" {
